@@ -83,8 +83,23 @@ class Gen:
         c = self.r.choice([1, 1, 1, 2, self.cnt.get(k, 1), 3, 1000, 18446744073709551615])
         self.emit('forget %d %d' % (k, c))
     def op_bforget(self):
+        """BATCH_FORGET shapes (shared by the C08 and C15 generators): the root (never forgotten) first / in the middle /
+        last / alone, the same inode several times in one batch, count 0, count above what is held, the empty batch"""
+        def ent(): return '%d:%d' % (self.anyreg(nonroot=True), self.r.choice([1, 1, 2, 7, 0, 1000]))
+        shape = self.r.choice(['plain', 'plain', 'rootfirst', 'rootmid', 'rootlast', 'rootonly', 'dup', 'zero', 'over', 'empty'])
         n = self.r.randint(1, 4)
-        self.emit('bforget ' + ' '.join('%d:%d' % (self.anyreg(), self.r.choice([1, 1, 2, 7])) for _ in range(n)))
+        es = [ent() for _ in range(n)]
+        root = '0:%d' % self.r.choice([1, 2, 5])
+        if shape == 'rootfirst': es = [root] + es
+        elif shape == 'rootmid': es = es[:max(1, n // 2)] + [root] + (es[max(1, n // 2):] or [ent()])
+        elif shape == 'rootlast': es = es + [root]
+        elif shape == 'rootonly': es = [root]
+        elif shape == 'dup':
+            k = self.anyreg(nonroot=True); es = ['%d:1' % k, ent(), '%d:1' % k, '%d:%d' % (k, self.r.choice([1, 3]))]
+        elif shape == 'zero': es = ['%d:0' % self.anyreg(nonroot=True)] + es
+        elif shape == 'over': es = ['%d:%d' % (self.anyreg(nonroot=True), self.r.choice([1000, 18446744073709551615]))] + es
+        elif shape == 'empty': es = []
+        self.emit(('bforget ' + ' '.join(es)).strip())
     def op_create(self):
         d = self.dreg(); u = self.r.random(); dn = self.reg.get(d)
         if u < 0.5: nm = self.newname(); node = Node('file')
@@ -188,6 +203,12 @@ class Gen:
             self.emit('use %d %d %s' % (k, hk, use))
         self.emit('%s %d %d' % (rel, k, hk))
         self.emit('bforget %d:1000' % k)
+    def batch_block(self, pos):
+        """two references, then one BATCH_FORGET naming them and the root at place `pos` (0 first, 1 middle, 2 last)"""
+        a = self.nreg; b = self.nreg + 1; self.nreg += 2; self.reg[a] = None; self.reg[b] = None
+        self.emit('lookup %d 0 f' % a); self.emit('lookup %d 0 d2' % b)
+        es = ['%d:1' % a, '%d:1' % b]; es.insert(pos, '0:2')
+        self.emit('bforget ' + ' '.join(es))
     def handle_blocks(self, base, n):
         combos = [(a, b, c) for a in self.HKINDS for b in self.HUSES for c in ('release', 'releasedir')]
         for j in range(n):
@@ -200,18 +221,20 @@ class Gen:
         for hk, (k, kind) in list(self.hreg.items()):
             self.emit('%s %d %d' % ('releasedir' if kind == 'dir' else 'release', k, hk))
         self.hreg = {}
-        self.emit('bforgetall')
+        # forget every reference: by single FORGETs or one BATCH_FORGET, with the root at some place in the batch
+        self.emit('bforgetall ' + self.r.choice(['plain', 'rootfirst', 'rootmid', 'rootlast', 'single']))
     def generate(self, n, special=False):
         W = {'c08': [(self.op_lookup, 30), (self.op_forget, 16), (self.op_bforget, 4), (self.op_create, 6), (self.op_mk, 9),
                      (self.op_link, 5), (self.op_rename, 4), (self.op_unlink, 5), (self.op_readdir, 8), (self.op_open, 2),
                      (self.op_release, 2), (self.op_destroy, 1)],
-             'c15': [(self.op_lookup, 18), (self.op_forget, 8), (self.op_bforget, 2), (self.op_create, 10), (self.op_mk, 4),
+             'c15': [(self.op_lookup, 18), (self.op_forget, 8), (self.op_bforget, 6), (self.op_create, 10), (self.op_mk, 4),
                      (self.op_link, 2), (self.op_rename, 2), (self.op_unlink, 4), (self.op_readdir, 10), (self.op_open, 14),
                      (self.op_release, 12), (self.op_use, 8), (self.op_destroy, 2)]}[self.profile]
         fs = [f for f, w in W]; ws = [w for f, w in W]
         if self.profile == 'c15':
             # in every history: a listing through a handle obtained by OPEN on a directory inode, and a failing
             # READ on an OPENDIR handle that was listed, each released; then a slice of the systematic blocks
+            self.batch_block((self.block_base // 8) % 3)
             self.handle_block('open-dir', 'readdir', 'release' if self.block_base % 2 else 'releasedir')
             self.handle_block('opendir', 'read' if self.block_base % 4 < 2 else 'write', 'releasedir')
             self.handle_blocks(self.block_base, self.blocks)
